@@ -103,6 +103,30 @@ func xkey(gs *GameState) string {
 	return string(b)
 }
 
+// first difference between two JSON renderings (for messages)
+func xdiff(a, b string) string {
+	n := len(a)
+	if len(b) < n {
+		n = len(b)
+	}
+	i := 0
+	for i < n && a[i] == b[i] {
+		i++
+	}
+	lo := i - 60
+	if lo < 0 {
+		lo = 0
+	}
+	ha, hb := i+60, i+60
+	if ha > len(a) {
+		ha = len(a)
+	}
+	if hb > len(b) {
+		hb = len(b)
+	}
+	return fmt.Sprintf("in-memory ...%s... vs resumed ...%s...", a[lo:ha], b[lo:hb])
+}
+
 func xapply(g Game, o xop) (err error) {
 	switch o.Kind {
 	case "ready":
@@ -684,6 +708,9 @@ func xconfigs(level int) []xcfg {
 	}
 	if level >= 2 {
 		out = append(out, xcfg{Bankrolls: []int64{9, 9}, SB: 1, BB: 2, Limit: "pot"}, xcfg{Bankrolls: []int64{8, 3, 9}, SB: 1, BB: 2, Limit: "pot"})
+	} else if os.Getenv("VERIF_PROP") == "C07" || os.Getenv("VERIF_PROP") == "C12" {
+		// pot-limit behaviour depends on state that must survive a reload (C07) and caps raises (C12)
+		out = append(out, xcfg{Bankrolls: []int64{9, 9}, SB: 1, BB: 2, Limit: "pot"})
 	}
 	return out
 }
@@ -757,6 +784,30 @@ func TestVerifEngineBounded(t *testing.T) {
 				rf := xrefusals(gs0, c)
 				rep.Refusals += 12
 				record(rf, c, path)
+			}
+			if gs0.Status.CurrentEvent == "GameClosed" && (prop == "" || prop == "C07") {
+				// C07: the explored hand hopped through JSON before every operation. The same operations on ONE
+				// in-memory game (no hop at all) must end in the same state, up to timestamps and the game id.
+				if g2, err := xnew(c); err == nil {
+					ok := true
+					for _, o := range path {
+						func() {
+							defer func() {
+								if r := recover(); r != nil {
+									ok = false
+								}
+							}()
+							if e := xapply(g2, o); e != nil {
+								ok = false
+							}
+						}()
+					}
+					if !ok {
+						record([]xchk{{"C07", "resume-differs", "an operation accepted on the resumed game is refused or panics on the in-memory game", ""}}, c, path)
+					} else if a, b := xkey(g2.GetState()), xkey(gs0); a != b {
+						record([]xchk{{"C07", "resume-differs", "the hand resumed from JSON before every operation ends in a different state than the same operations on one in-memory game: " + xdiff(a, b), ""}}, c, path)
+					}
+				}
 			}
 			if gs0.Status.CurrentEvent == "GameClosed" {
 				rep.Closed++
